@@ -121,10 +121,21 @@ fn get_delta_superficial_loss_info(
         // if we forced. Produce a sensible-ish ratio (this is just for display
         // purposes). This could end up being greater than 1 in strange cases.
 
+        // Multiply before dividing: a tiny specified loss over a huge capital loss
+        // would otherwise underflow to zero, which is not a valid ratio numerator.
+        let sold_shares = tx.sell_specifics().unwrap().shares;
         let override_ratio = crate::util::math::PosDecimalRatio {
-            numerator: (specified_loss / cap_loss)
-                * tx.sell_specifics().unwrap().shares,
-            denominator: tx.sell_specifics().unwrap().shares,
+            numerator: PosDecimal::try_from(
+                *specified_loss * *sold_shares / *cap_loss,
+            )
+            .map_err(|_| {
+                format!(
+                    "Sell order on {} of {}: the specified superficial loss ({}) is \
+                     too small relative to the capital loss ({}) to be represented",
+                    tx.trade_date, tx.security, specified_loss, cap_loss
+                )
+            })?,
+            denominator: sold_shares,
         };
 
         // Leave adjust_txs empty, since specified SFL must be accompanied with
